@@ -944,16 +944,29 @@ async fn c14_scenario(p: C14Plan) {
     }
     // an acknowledged (NOERROR) message must have all its rows durable: trivially true by
     // construction of rows_after; a refused message must not have changed the live zone
+    // once a refused message has changed the live zone (a listed known finding), the server's
+    // later live states are no longer what its journal describes: crash points after that
+    // message are not judged in this run (narrow relaxation; everything before it still is)
+    let mut tainted_from_row: Option<u64> = None;
     for (i, rc) in t.rcodes.iter().enumerate() {
         if *rc != ResponseCode::NoError && t.states[i + 1] != t.states[i] {
             let shape = if *rc == ResponseCode::ServFail && p.disk_full_before.is_some() { "servfail-after-disk-full" } else { "refused" };
             if exec::violate("C14.refused-changes-zone", shape, format!("message {i} answered {rc:?} but the live zone changed: {}", diff_zone(&t.states[i + 1].0, &t.states[i].0))) {
                 return;
             }
+            if tainted_from_row.is_none() {
+                tainted_from_row = Some(t.rows_before[i]);
+                exec::count("probe.tainted_by_known_finding");
+            }
         }
     }
     let post_ix = if boundaries.is_empty() { 0 } else { (p.post_pick as usize) % boundaries.len() };
     for (bi, b) in boundaries.iter().copied().enumerate() {
+        if let Some(tr) = tainted_from_row {
+            if b >= tr {
+                continue;
+            }
+        }
         if b == 0 {
             // a journal without any row: what the server does with it at start-up is decided in
             // try_from_config, which part `startup` exercises with real files
